@@ -16,6 +16,7 @@ from fractions import Fraction as Fr
 
 D = datetime.datetime
 OPS = ['+', '-', '*', '/']
+TIGHT = Fr(1, 10 ** 12)
 CLASSES = ['int', 'float', 'bool', 'blank', 'numtext', 'text', 'emptytext', 'date', 'datetime', 'datetext', 'array', 'nested']
 
 
@@ -125,7 +126,7 @@ class Check(BaseCheck):
         if kind == 'err':
             return isinstance(got, XLError) and str(got) == exp[1]
         if kind == 'num':
-            return is_num(got) and close(got, exp[1])
+            return is_num(got) and close(got, exp[1], TIGHT)      # one correctly rounded operation (plus serial conversion): far inside 1e-12
         if kind == 'date':
             return dt_close(got, exp[1])
         if kind == 'arr':
